@@ -10,6 +10,7 @@
 #include <gvt/fossil.h>
 
 #include <mm/msg_allocator.h>
+#include <verif_hooks.h>
 
 __thread unsigned fossil_epoch_current;
 /// The value of the last GVT, kept here for easier fossil collection operations
@@ -38,6 +39,7 @@ void fossil_lp_collect(struct lp_ctx *lp)
 		return;
 
 	simtime_t gvt = fossil_gvt_current;
+	VH(VH_FOSSIL_BEGIN, lp, VH_BITS(gvt), 0);
 	for(const struct lp_msg *msg = array_get_at(proc_p->p_msgs, --past_i); msg->dest_t >= gvt;) {
 		do {
 			if(!past_i)
@@ -51,10 +53,12 @@ void fossil_lp_collect(struct lp_ctx *lp)
 	array_count_t k = past_i;
 	while(k--) {
 		struct lp_msg *msg = array_get_at(proc_p->p_msgs, k);
+		VH(VH_FOSSIL_ENTRY, msg, k, lp);
 		if(!is_msg_local_sent(msg))
 			msg_allocator_free(unmark_msg(msg));
 	}
 	array_truncate_first(proc_p->p_msgs, past_i);
+	VH(VH_FOSSIL_END, lp, past_i, VH_BITS(gvt));
 
 	lp->fossil_epoch = fossil_epoch_current;
 }
